@@ -50,7 +50,7 @@ VIX = "dask_array.slicing._vindex"
 ARG = "dask_array.creation._arange"
 DB = "dask.blockwise"
 MT = "dask_array._materialize"
-MODS = [MT, "dask_array.core._blockwise_funcs", "dask_array.core._conversion", EX, BW, CU, RC, FA, IOB, SB, SU, "dask_array.slicing", CO, NC, TR, XP, SQ, BT, CC, SK, RD, RCM, SHF, VIX, ARG, "dask_array._overlap", "dask_array._map_blocks", "dask_array._chunk", "dask.layers", "dask_array.reductions._sliding_window", "dask_array.manipulation._reshape", DB]
+MODS = [MT, "dask_array.core._blockwise_funcs", "dask_array.core._conversion", EX, BW, CU, RC, FA, IOB, SB, SU, "dask_array.slicing", CO, NC, TR, XP, SQ, BT, CC, SK, RD, RCM, SHF, VIX, ARG, "dask_array._overlap", "dask_array._map_blocks", "dask_array._chunk", "dask.layers", "dask_array.reductions._sliding_window", "dask_array.manipulation._reshape", "dask_array.reductions._arg_reduction", DB]
 STUBS = SHIM_LIST + [
     "expression classes -> symx.nodes (real methods on cloned code; constructors/tokenize bypassed, structural names); the "
     "Array collection class -> subclass with cloned methods",
@@ -95,11 +95,20 @@ class _Warn:
         pass
 
 
+def _meta_from_array(x, ndim=None, dtype=None):
+    """metas stay real (empty) NumPy arrays: a source node rebuilt by a rewrite derives its meta from the symbolic source array"""
+    from dask_array._utils import meta_from_array
+
+    if isinstance(x, SArr):
+        return np.empty((0,) * (x.ndim if ndim is None else ndim), dtype=dtype or x.dtype)
+    return meta_from_array(x, ndim=ndim, dtype=dtype)
+
+
 def W(E, key="catalog"):
     cfg = Cfg({"array.rechunk.method": "tasks", "array.unify-chunks-policy": "auto", "array.unify-chunks-limit": None,
                "array.slicing.split-large-chunks": None})
     w = world(key, E.symbolic, MODS, nodes=True, desugar=(EX, CU, DB),
-              extra=dict(config=cfg, warnings=_Warn(), plan_rechunk=lambda old, new, *a, **k: [new]),
+              extra=dict(config=cfg, warnings=_Warn(), plan_rechunk=lambda old, new, *a, **k: [new], meta_from_array=_meta_from_array),
               clone_classes=[(CO, "Array")])
     if E.symbolic and not isinstance(w.ns[SHF].get("np"), _ShuffleNp):
         w.ns[SHF]["np"] = _ShuffleNp()
@@ -143,7 +152,7 @@ def source(w, E, tag, blocks, lo=1, shape=None, hi=None, chunks=None):
             E.assume(sum(c) == shape[a])
         chunks.append(c)
     chunks = tuple(chunks)
-    arr = leaf(tag, tuple(sum(c) for c in chunks))
+    arr = leaf(tag, tuple(sum(c) for c in chunks), dtype="f8")
     meta = np.empty((0,) * len(blocks))
     node = w.space.make(FAm.FromArray, arr, chunks, _symx_attrs=dict(_meta=meta, chunks=chunks, _name=tag))
     cs = [cumsum0(c) for c in chunks]
@@ -240,10 +249,10 @@ def scaled(x, factor=1.0):
 scaled.__symx_kernel__ = True
 
 
-def p_elemwise(w, op, *ps, **user_kwargs):
+def p_elemwise(w, op, *ps, _dtype=None, **user_kwargs):
     import dask_array._blockwise as M
 
-    node = w.space.make(M.Elemwise, op, None, None, True, None, dict(user_kwargs) or None, *[q.node if isinstance(q, Prog) else q for q in ps])
+    node = w.space.make(M.Elemwise, op, _dtype, None, True, None, dict(user_kwargs) or None, *[q.node if isinstance(q, Prog) else q for q in ps])
     refs = [q.ref if isinstance(q, Prog) else q for q in ps]
     ref = op(*refs, **user_kwargs)
     dsk = {}
@@ -526,6 +535,9 @@ def programs(tier):
     reg("rechunk(scaled(x2,factor=2.5))", lambda w, E: _rechunk_over(w, E, p_elemwise(w, scaled, source(w, E, "x", (2,)), factor=2.5), (3,)), 4)
     reg("scaled(x2,factor=2.5)[a:b]", lambda w, E: p_slice(w, p_elemwise(w, scaled, source(w, E, "x", (2,)), factor=2.5), raw_index(E, (F,))), 4)
     reg("scaled(x2x2,factor=2.5).T", lambda w, E: p_transpose(w, p_elemwise(w, scaled, source(w, E, "x", (2, 2)), factor=2.5), (1, 0)), 2)
+    reg("add(x2x2,y2x2,dtype=f4).T", lambda w, E: p_transpose(w, _add_dtype(w, E, (2, 2)), (1, 0)), 2)
+    reg("add(x2,y2,dtype=f4)[a:b]", lambda w, E: p_slice(w, _add_dtype(w, E, (2,)), raw_index(E, (F,))), 3)
+    reg("rechunk(add(x2,y2,dtype=f4))", lambda w, E: _rechunk_over(w, E, _add_dtype(w, E, (2,)), (3,)), 4)
     reg("rechunk(x2+y2)", lambda w, E: _rechunk_over(w, E, _add_aligned(w, E, (2,)), (3,)), 4)
     reg("rechunk(concatenate([x2,y2],0))", lambda w, E: _rechunk_over(w, E, p_concat(w, [source(w, E, "x", (2,)), source(w, E, "y", (2,))], 0), (3,)), 6)
     reg("rechunk(concatenate([x2x2,y2x1],1),axis0)", lambda w, E: _rechunk_over(w, E, _concat_axis1(w, E), (1, None)), 5)
@@ -566,6 +578,14 @@ def _rechunk_over(w, E, p, new_blocks, tag="r"):
         E.assume(sum(c) == sum(cur[a]))
         tgt.append(c)
     return p_rechunk(w, p, tuple(tgt))
+
+
+def _add_dtype(w, E, blocks):
+    """an element-wise op with an explicit dtype= that differs from the inferred one (values are exact reals here; what is
+    followed is the advertised dtype)"""
+    x = source(w, E, "x", blocks)
+    y = source(w, E, "y", blocks, chunks=x.node.chunks)
+    return p_elemwise(w, operator.add, x, y, _dtype=np.dtype("f4"))
 
 
 def _add_aligned(w, E, blocks):
